@@ -24,7 +24,7 @@ SHAPES = dict(quick=dict(d=[2, 3]), thorough=dict(d=[2, 3, 4]))
 TRUSTED_BASE = [
     'CPython + NumPy indexing/concatenate/cumprod machinery on object arrays == on typed arrays up to element arithmetic; floats are reals',
     'z3 QF_NRA for the inequality obligations (norm < 1, interval membership, positivity) and sympy normalisation for identities',
-    'root symbols (s>=0, s^2=radicand), trigonometric normal form (c^2+s^2=1), exp(x)>0, 0<expit(x)<1, softplus(x)>0 and >x: axioms sound over the reals',
+    'root symbols (s>=0, s^2=radicand), trigonometric normal form (c^2+s^2=1), exp(x)>0, 0<expit(x)<1, 0<log1p(e)<e for e>0: axioms sound over the reals (softplus(x)>0 and >x is derived from them on the real _np_softplus, three sign cases)',
     'Gram-form lemma (mathematics): a matrix L L^dagger with L of r columns is Hermitian positive semidefinite of rank <= r; a convex mixture of rank-one projectors is PSD',
 ]
 ASSUMPTIONS = [
@@ -32,10 +32,10 @@ ASSUMPTIONS = [
     'trace-one PSD (cholesky: ret == L L^dagger with L normalised; ensemble: ret == sum p_i psi_i psi_i^dagger), symmetric/Hermitian matrix (all four trace0/norm1 options), the GENERATOR handed to expm is skew-Hermitian and traceless (real: antisymmetric), '
     'Cayley map orthogonal/unitary for d=2 via the exact symbolic inverse, Stiefel: qr plumbing (delegation), polar rank-1, real Euler chart orthonormal columns; nn.Module wrappers delegate to the functional maps',
     'ASSUMED contracts of externals (never executed symbolically): scipy.linalg.expm(A) is unitary with det 1 for skew-Hermitian traceless A; numpy.linalg.qr returns Q with Q^dagger Q = I; scipy.special.softmax returns a probability vector; '
-    'scipy.special.expit in (0,1); softplus > 0',
+    'scipy.special.expit in (0,1); numpy.exp > 0; 0 < numpy.log1p(e) < e for e > 0',
     'BOUNDED part: everything through LAPACK (expm, qr, eigh, cholesky, inv for d>3), all torch branches, float32, larger dims, SeparableDensityMatrix / QuantumChannel / ABk classes',
 ]
-STUBS = ['scipy.linalg.expm (recorder)', 'numpy.linalg.qr (recorder)', 'scipy.special.softmax (contract: probability vector)', 'scipy.special.expit (contract: (0,1))', 'numqi.manifold._internal:_np_softplus (contract: > 0)',
+STUBS = ['scipy.linalg.expm (recorder)', 'numpy.linalg.qr (recorder)', 'scipy.special.softmax (contract: probability vector)', 'scipy.special.expit (contract: (0,1))', 'numqi.manifold._internal:_np_softplus (contract: > 0 and > x, used by the Cholesky chart; discharged on the real function by the _np_softplus obligations from exp > 0 and 0 < log1p(e) < e)',
          'functional maps inside nn.Module.forward (recorders, delegation obligations)']
 NUMPY_MODELS = ['linalg.norm == sqrt(sum |x|^2)', 'linalg.inv == adjugate/det (exact, d<=3)']
 BOUNDED_RULE = ('every functional map and every nn.Module class x backend {numpy, torch} x dtype {float32,float64,complex64,complex128} x batch shape (), (1,), (3,), (2,2) x dim 2..5 (6 thorough) x every rank x every method option, theta ~ scale*N(0,1) with scale in {0.1, 1, 10, 100} '
@@ -437,7 +437,37 @@ STF_EULER = Id('to_stiefel_euler.real', ['numqi.manifold._stiefel:to_stiefel_eul
                call=lambda I: ms.to_stiefel_euler(I['theta'], I['dim'], I['rank']), post=_stf_post,
                sample=lambda rng, sh: dict(theta=rng.uniform(0, np.pi / 2, size=sh[0] * sh[1] - sh[1] * (sh[1] + 1) // 2), dim=sh[0], rank=sh[1]), label=lambda sh: f'dim={sh[0]},rank={sh[1]}')
 
-CONTRACTS = {c.name: c for c in [SPHERE_Q, BALL, SPHERE_C, SIMPLEX, INTERVAL, POS_EXP, CHOL, ENS, SYM, SO_EXP, SO_CAY, STF_QR, STF_POLAR1, STF_EULER]}
+# ---- softplus: the assumed contract of _np_softplus (> 0 and > x, used as a stub by the Cholesky chart) is discharged here on the real function.
+# _np_softplus branches on np.sign(x); the Alg domain does not fork, so the contract enumerates the three cases: every real is positive, zero or negative
+# (input entries: a positive symbol, the exact 0, a negative symbol - n of each). exp / log1p enter through their axioms (exp > 0; 0 < log1p(e) < e for e > 0).
+def _softplus_inputs(n):
+    el = []
+    for k in range(n):
+        el += [sp.Symbol(f'tp{k}', positive=True), sp.Integer(0), sp.Symbol(f'tn{k}', negative=True)]
+    return dict(theta=SymArray(np.array(el, dtype=object), np.float64, ALG))
+
+
+def _softplus_assume(I):
+    th = SS.arr(I['theta']).ravel()
+    return [(('>' if e.is_positive else '<'), e, 0) for e in th if getattr(e, 'free_symbols', None)]
+
+
+def _softplus_post(I, r):
+    R = SS.arr(r).ravel(); th = SS.arr(I['theta']).ravel()
+    return [('positive', R, 0, '>'), ('above_identity', R - th if R.dtype == object else R - np.asarray(th, dtype=float), 0, '>'),
+            ('shape', np.array(SS.arr(r).shape), np.array(SS.arr(I['theta']).shape))]
+
+
+def _softplus_sample(rng, n):
+    a = np.abs(rng.normal(size=n)) * 3 + 1e-3; b = np.abs(rng.normal(size=n)) * 3 + 1e-3
+    return dict(theta=np.stack([a, np.zeros(n), -b], axis=1).reshape(-1))
+
+
+SOFTPLUS = Id('_np_softplus', ['numqi.manifold._internal:_np_softplus', 'numqi.manifold._internal:to_positive_real_softplus'], inputs=_softplus_inputs,
+              call=lambda I: mi.to_positive_real_softplus(I['theta']), post=_softplus_post, sample=_softplus_sample,
+              label=lambda n: f'{n} x (positive, zero, negative) entries', assume=_softplus_assume)
+
+CONTRACTS = {c.name: c for c in [SPHERE_Q, BALL, SPHERE_C, SIMPLEX, INTERVAL, POS_EXP, SOFTPLUS, CHOL, ENS, SYM, SO_EXP, SO_CAY, STF_QR, STF_POLAR1, STF_EULER]}
 
 
 def _norm(x):
@@ -786,6 +816,7 @@ def jobs(tier):
     J.append(('job_identity', dict(cname='to_discrete_probability_sphere', shapes=sx)))
     J.append(('job_identity', dict(cname='to_open_interval', shapes=[(1,), (3,), (2, 2)])))
     J.append(('job_identity', dict(cname='to_positive_real_exp', shapes=[(1,), (3,), (2, 2)])))
+    J.append(('job_identity', dict(cname='_np_softplus', shapes=[1, 2])))
     chol = [(d, r, real) for d in ds for r in range(1, d + 1) for real in (True, False)]
     for i in range(4):
         if chol[i::4]:
